@@ -20,9 +20,9 @@ func init() {
 		o.exprOfAssign(funcSpec{dir: d, recv: "PatchSet", name: "Add", coqName: "add_new_combo",
 			params: "(last_new new_len : Z)", retType: "Z", leaves: addLeaves}, "newCombo", 0)
 		o.condOf(funcSpec{dir: d, recv: "PatchSet", name: "Add", coqName: "add_coalesce_cond",
-			params: "(offset last_end old_combo new_combo : Z)", retType: "bool", leaves: addLeaves}, "offset == lastEnd")
+			params: "(offset last_end old_combo new_combo : Z)", retType: "bool", leaves: addLeaves}, "lastEnd")
 		o.condOf(funcSpec{dir: d, recv: "PatchSet", name: "Add", coqName: "add_split_cond",
-			params: "(old_size : Z)", retType: "bool", leaves: addLeaves}, "oldSize > uint32Max")
+			params: "(old_size : Z)", retType: "bool", leaves: addLeaves}, "oldSize", 0)
 		o.condOf(funcSpec{dir: d, recv: "", name: "Load", coqName: "load_version_bad",
 			params: "(version : Z)", retType: "bool", leaves: map[string]string{"h.Version": "version"}}, "h.Version")
 		apLeaves := map[string]string{
@@ -30,13 +30,13 @@ func init() {
 			"i": "i", "len(p.Patches)": "n", "oldEnd": "old_end", "ininfo.Size()": "in_size",
 		}
 		o.condOf(funcSpec{dir: d, recv: "PatchSet", name: "Apply", coqName: "apply_same_size",
-			params: "(p_old p_new : Z)", retType: "bool", leaves: apLeaves}, "patch.OldSize == patch.NewSize")
+			params: "(p_old p_new : Z)", retType: "bool", leaves: apLeaves}, "patch.NewSize")
 		o.condOf(funcSpec{dir: d, recv: "PatchSet", name: "Apply", coqName: "apply_not_last",
-			params: "(i n : Z)", retType: "bool", leaves: apLeaves}, "i != len(p.Patches)")
+			params: "(i n : Z)", retType: "bool", leaves: apLeaves}, "len(p.Patches)")
 		o.exprOfAssign(funcSpec{dir: d, recv: "PatchSet", name: "Apply", coqName: "apply_old_end",
 			params: "(p_off p_old : Z)", retType: "Z", leaves: apLeaves}, "oldEnd", 0)
 		o.condOf(funcSpec{dir: d, recv: "PatchSet", name: "Apply", coqName: "apply_not_at_eof",
-			params: "(old_end in_size : Z)", retType: "bool", leaves: apLeaves}, "oldEnd != ininfo.Size()")
+			params: "(old_end in_size : Z)", retType: "bool", leaves: apLeaves}, "oldEnd")
 		o.exprOfAssign(funcSpec{dir: d, recv: "PatchSet", name: "Apply", coqName: "apply_new_size",
 			params: "(p_off p_new : Z)", retType: "Z", leaves: apLeaves}, "size", 1)
 		o.decisionFunc(funcSpec{dir: d, recv: "", name: "canOverwrite", coqName: "can_overwrite",
@@ -45,9 +45,9 @@ func init() {
 				"os.SameFile(ininfo, outinfo)": "same_file", "hasLinks(outinfo)": "has_links"}})
 		rwLeaves := map[string]string{"delta": "delta"}
 		o.condOf(funcSpec{dir: d, recv: "PatchSet", name: "applyRewrite", coqName: "rewrite_out_of_order",
-			params: "(delta : Z)", retType: "bool", leaves: rwLeaves}, "delta < 0")
+			params: "(delta : Z)", retType: "bool", leaves: rwLeaves}, "delta", 0)
 		o.condOf(funcSpec{dir: d, recv: "PatchSet", name: "applyRewrite", coqName: "rewrite_copy_before",
-			params: "(delta : Z)", retType: "bool", leaves: rwLeaves}, "delta > 0")
+			params: "(delta : Z)", retType: "bool", leaves: rwLeaves}, "delta", 1)
 		for _, fn := range []string{"Add", "Dump", "Apply", "applyRewrite"} {
 			fingerprint(d, "PatchSet", fn)
 		}
